@@ -43,9 +43,9 @@ PROPS = {
    explanation="run_task postcondition (is_err/return_value/error/labels from the awaited invocation's outcome, any BaseException, wait_for applied iff timeout label); callback: exactly one set_result with "
                "(task_id, result) unless NoResultError; a backend Exception never escapes.",
    assumptions=["frame-preserving hooks (a middleware may legitimately rewrite the result)", "timeout label None or float-convertible"], not_decided=["that the backend stores what it is given"]),
- 'C10': dict(units=['u_callback', 'u_run_task'], design_ref='DESIGN.md 4 C10, A.2',
+ 'C10': dict(units=['u_callback', 'u_run_task', 'u_kiq'], design_ref='DESIGN.md 4 C10, A.2',
    explanation="Worker side: loop invariants 'hooks with index < i fired iff overridden, none >= i' for pre_execute/post_execute/post_save/on_error on the real loops; order by monitor; sync and async hooks (token rule).",
-   assumptions=["hooks that raise are exempt from 'exactly once' for the hooks after them (hook_failed)"], not_decided=["send side (kiq) is decided by unit u_kiq (added when built)"]),
+   assumptions=["hooks that raise are exempt from 'exactly once' for the hooks after them (hook_failed)"], not_decided=[]),
  'C12': dict(units=['u_run_task'], design_ref='DESIGN.md 4 C12, A.2',
    explanation="Monitor on the real run_task: exactly one awaited dep_ctx.close per created context, after the invocation finished or resolution failed, before the result is built; exc_info passed iff found and propagate.",
    assumptions=["taskiq_dependencies.close() finalises every opened dependency once and throws exc_info[1] iff not None (external)", "timeout label None or float-convertible"],
@@ -61,5 +61,18 @@ PROPS = {
                "decodes to the current labels (real parse_label on the wire form, arbitrary key); ownership theorem: kicker()/with_labels()/with_task_id()/with_broker() never modify the task (heap frame, no aliasing).",
    assumptions=["str/int/float/base64 axioms (specs/u_labels.py TRUSTED)", "labels arrive parsed: a type tag, if present, is the tag of the label's type; bytes labels are always tagged"],
    not_decided=["float -> str -> float exactness and base64 are axioms; the retry re-send goes through _prepare_message (decided in C11's unit when built)"]),
+ 'C11': dict(units=['u_retry'], design_ref='DESIGN.md 4 C11, A.5',
+   explanation="Contract of the real SimpleRetryMiddleware.on_error (re-send iff not NoResult, enabled, r+1 < m; same id/name/args/kwargs, labels with _retries = r+1; NoResultError iff re-sent and no_result_on_retry) "
+               "+ attempt lemma by induction (base/step discharged by z3): attempt k carries _retries = k-1, total executions <= max(1, max_retries).",
+   assumptions=["labels arrive parsed as ints/bools/strs (C09)", "AsyncKicker chain contract (u_kicker)", "save rule / on_error call rule of C07/C10 (units u_callback/u_run_task)"], not_decided=[]),
+ 'C15': dict(units=['u_sched_loop'], design_ref='DESIGN.md 4 C15',
+   explanation="One iteration of the real run_scheduler_loop body: exactly the due schedules are spawned once each with their own (source, task, delay), ValueError isolation, nothing escapes, sleep argument; "
+               "get_schedules/get_all_schedules/delayed_send contracts; history Lemma L (arithmetic over the contracts) under timing assumptions A1-A3.",
+   assumptions=["A1-A3 (asyncio.sleep accuracy, iteration duration, no UTC-offset change between the two naive clock reads) are unchecked", "get_task_delay contract (C13/C14)"],
+   not_decided=["whether A1-A3 hold on a real clock; removal of fired one-shot entries is the source's job (C16)"]),
+ 'C16': dict(units=['u_kiq', 'u_label_source'], design_ref='DESIGN.md 4 C16',
+   explanation="on_ready monitor (pre_send first; cancel => nothing; else one kiq with the schedule's name/broker/labels+schedule_id/args/kwargs, then post_send; sync and async callbacks); "
+               "LabelScheduleSource.get_schedules = exact ordered listing (soundness, no duplicates, completeness via ghost inverse map, copied fields); post_send removes the first entry with the fired time and nothing else.",
+   assumptions=["dict/list views; Python == on times is an equivalence (py_eq)", "AsyncKicker chain contract (u_kicker)"], not_decided=[]),
 }
 NOT_APPLICABLE = {}
